@@ -474,6 +474,9 @@ class NewContext(CtxVC):
     def configure(self, I):
         install_dict_merge(I)
         c = self
+        # feasibility checks on the quantified path conditions of the merge loop normally take a few ms; z3 was observed not to come
+        # back after a *cancelled* check of this formula class (300 ms default, tripped on a loaded machine): give it room
+        I.feas_timeout = 20000
 
         def ctor(I_, st, args, kwargs, node):
             r = st.alloc(HObj(R.Context, path="new_context"))
@@ -1605,12 +1608,12 @@ class CtxParse(PP.ParseVC):
         if not (isinstance(wc, Sym) and wc.k == "bool"):
             return False
         # set by a `with context` / `without context` suffix: the value is (<consumed token>.value == "with")
-        cands = []
+        # (matched structurally: the interpreter builds exactly this term; keeps the string solver out of the search)
         for t in st.ghost.get("tokens", []):
-            v = st.get(t).fields["value"]
-            cands.append(z3.And(wc.t == (to_term(v, "str") == z3.StringVal("with")),
-                                z3.Or(to_term(v, "str") == z3.StringVal("with"), to_term(v, "str") == z3.StringVal("without"))))
-        return z3.Or(*cands) if cands else False
+            v = to_term(st.get(t).fields["value"], "str")
+            if wc.t.eq(v == z3.StringVal("with")):
+                return z3.Or(v == z3.StringVal("with"), v == z3.StringVal("without"))
+        return False
 
     posts = [("only_TemplateSyntaxError", PP.ParseVC.p_raises), ("suffix_sets_with_context_else_default", p_suffix),
              ("documented_default_and_fields", p_default), ("from_import_default_without_context", p_from)]
